@@ -356,6 +356,23 @@ def runCli (genOfSeed : Nat → Stream) (seed : Nat) (op : Op) (a : Args) (γ ω
 the lemma file the trace of a G-only operation does not depend on Γ and Ω) -/
 def trace (op : Op) (a : Args) : List Event := (run (prog op a) ⟨fun _ => 0, fun _ => 0, fun _ => 0⟩).trace
 
+/-! ## histories of calls in one process
+
+A reusable object (scorer, plate generator, smoother, policy) is called several times in one
+process, each time with the generator handed to THAT call; the process-global state and the OS
+entropy are threaded from one call to the next.  The model has no per-object state: a call's program
+is `prog op a`, whatever was called before. -/
+
+/-- one call: the operation, its arguments, the generator handed to it -/
+abbrev Call := Op × Args × Stream
+
+/-- run the calls in order; `Γ` and `Ω` are whatever the previous call left -/
+def runSeq : List Call → Stream → Stream → List (Result (List Nat))
+  | [], _, _ => []
+  | (op, a, g) :: cs, γ, ω =>
+    let r := run (prog op a) ⟨g, γ, ω⟩
+    r :: runSeq cs r.world.γ r.world.ω
+
 /-! ## which generator a trained model draws from (sampling.py:45-49)
 
 A model object may already HOLD a generator when it is handed to `sampling.sample` (constructor
